@@ -4129,11 +4129,17 @@ impl Context {
                 let mut case_results: Vec<VPtr> = Vec::new();
                 let mut all_states: Vec<StateSkeleton> = Vec::new();
 
+                // The cells of the cases are laid out one after the other; each case restores
+                // the state position it started from.
+                let mut case_offset = self.get_ctxdata().next_state_offset.take().unwrap_or(0);
+
                 for (val, subtree) in cases {
                     self.add_new_basicblock();
                     let block_idx = self.get_ctxdata().current_bb as u64;
-                    let (result, states) =
-                        self.compile_decision_tree(subtree, tuple_val, tuple_ty, elem_types);
+                    let (result, states) = self.eval_alternative(case_offset, |ctx| {
+                        ctx.compile_decision_tree(subtree, tuple_val, tuple_ty, elem_types)
+                    });
+                    case_offset += Self::states_size(&states);
                     case_blocks.push((*val, block_idx));
                     case_results.push(result);
                     all_states.extend(states);
@@ -4143,14 +4149,17 @@ impl Context {
                 let default_block_idx = if let Some(default_tree) = default {
                     self.add_new_basicblock();
                     let block_idx = self.get_ctxdata().current_bb as u64;
-                    let (result, states) =
-                        self.compile_decision_tree(default_tree, tuple_val, tuple_ty, elem_types);
+                    let (result, states) = self.eval_alternative(case_offset, |ctx| {
+                        ctx.compile_decision_tree(default_tree, tuple_val, tuple_ty, elem_types)
+                    });
+                    case_offset += Self::states_size(&states);
                     case_results.push(result);
                     all_states.extend(states);
                     Some(block_idx)
                 } else {
                     None
                 };
+                self.get_ctxdata().next_state_offset = (case_offset > 0).then_some(case_offset);
 
                 // Generate merge block
                 self.add_new_basicblock();
